@@ -30,7 +30,7 @@ theorem reactToken_plain (v : View) (st : RState) (c0 : Char) (rest val : List C
   obtain ⟨⟨⟨⟨⟨⟨⟨⟨⟨⟨⟨⟨⟨⟨⟨h1, h2⟩, h3⟩, h4⟩, h5⟩, h6⟩, h7⟩, h8⟩, h9⟩, h10⟩, h11⟩, h12⟩, h13⟩, h14⟩, h15⟩, h16⟩ := hside
   have hhead : (c0 :: rest).head? ≠ some '-' := by simp [h2]
   have hnot : ¬ (c0.toNat - '0'.toNat > st.chains.length - 1) := by omega
-  unfold reactToken tokenEffect
+  unfold reactToken tokenEffect tokenOp
   simp only [h1, Bool.false_eq_true, if_false]
   have e1 : ((c0 :: rest).head? == some '-' && (c0 :: rest) != "-uronic".toList) = false := by simp [h2]
   simp only [e1, Bool.false_eq_true, if_false]
@@ -50,7 +50,8 @@ theorem reactToken_plain (v : View) (st : RState) (c0 : Char) (rest val : List C
   have e11 : (rest == ['d']) = false := by simp only [beq_eq_false_iff_ne, ne_eq]; exact h11
   have e12 : (rest == ['e']) = false := by simp only [beq_eq_false_iff_ne, ne_eq]; exact h12
   simp only [e11, e12, Bool.false_eq_true, if_false, h13, h14, h15, h16, he]
-  cases hC : ((if Gen.preserveElem.contains rest then [e] else []) == ['C']) <;> simp only [hC, Bool.false_eq_true, if_false, if_true]
+  cases hC : ((if Gen.preserveElem.contains rest then [e] else []) == ['C']) <;>
+    simp only [hC, Bool.false_eq_true, if_false, if_true, bindO, applyOp]
   · cases setFg st.chains (if (e == 'C') = true then 1 else 0) (c0.toNat - '0'.toNat) (if Gen.preserveElem.contains rest = true then [e] else []) rest <;>
       simp [bindO, applyEffect]
   · cases setFg st.chains (if (e == 'C') = true then 1 else 0) (c0.toNat - '0'.toNat) [] rest <;> simp [bindO, applyEffect]
